@@ -233,7 +233,7 @@ def corpus(tier, seed):
         return d, st
     t0 = time.time()
     W = storecfg.walk_configs(tier)
-    budget = 6 if tier == "quick" else 240
+    budget = 10 if tier == "quick" else 240
     jobs = [(n, c, seed, budget, d) for n, c in W.items()]
     rjobs = [(n, seed, 30 if tier == "quick" else 300, 150 if tier == "quick" else 300, d) for n in RANDOM_CFGS]
     with mp.Pool(6 if tier == "quick" else 8) as pool:
